@@ -65,6 +65,28 @@ Proof. intro H. now rewrite !wire_len_l, H. Qed.
 
 Lemma blocks_empty : blocks 0 = 1%nat. Proof. reflexivity. Qed.
 
+(** the wire length reveals the block count and nothing else: equal lengths iff equal block counts *)
+Lemma wire_len_iff_blocks_l n m : request_wire_len n = request_wire_len m <-> blocks n = blocks m.
+Proof. rewrite !wire_len_l. split; intro H; lia. Qed.
+
+(** [blocks n] is the number of 32-byte blocks NEEDED: the least k >= 1 with n <= 32 k *)
+Lemma blocks_least_l n : (1 <= blocks n /\ n <= 32 * blocks n)%nat /\
+  forall k, (1 <= k)%nat -> (n <= 32 * k)%nat -> (blocks n <= k)%nat.
+Proof.
+  unfold blocks.
+  pose proof (Nat.div_mod (n + 31) 32 ltac:(lia)) as D.
+  pose proof (Nat.mod_upper_bound (n + 31) 32 ltac:(lia)) as U.
+  split; [split; lia | intros k Hk Hn; lia].
+Qed.
+
+(** the padded name is the name followed by zero bytes only, at most 32 of them *)
+Lemma pad_shape_l name : exists z, pad name = name ++ repeat x00 z /\ (z <= 32)%nat /\
+  firstn (length name) (pad name) = name.
+Proof.
+  exists (pad_count (length name)). split; [reflexivity|]. split; [apply pad_count_spec|].
+  unfold pad. rewrite firstn_app, Nat.sub_diag, firstn_O, app_nil_r. apply firstn_all.
+Qed.
+
 (** the hypothesis is necessary: a name ending in a zero byte collides with its prefix *)
 Lemma zero_suffix_collides : exists a b, a <> b /\ unpad (pad a) = unpad (pad b).
 Proof. exists [x61; x00], [x61]. split; [discriminate|vm_compute; reflexivity]. Qed.
